@@ -55,7 +55,7 @@ claim('C15', 'Proof (taint argument by symbolic execution of the real code, mask
       'induction on the real recursive walk hide_config_pwds (every node kind: str, list, tuple, FilterConfig, nested dict, per-source record), hence every nesting depth. '
       'That the masker itself hides the credential is a BOUNDED exhaustive enumeration over the RFC 3986 grammar (labelled bounded, not proved).', '6-C15')
 _todo = 'check not built yet in this session (planned, see DESIGN.md section 6); not claimed until its obligations are discharged'
-for _p in ( 'C11', 'C12', 'C15'):
+for _p in ('C11', 'C12'):
     NA[_p] = _todo
 NA['C06'] = ('liveness under fairness and bounded-time recovery across several processes: not expressible as pre/postconditions or invariants of one call; '
              'termination is not proved by this verifier (DESIGN.md section 7); its safety ingredients are proved under C02/C04/C05')
